@@ -22,7 +22,7 @@ func init() {
 			}
 			return 40000
 		},
-		Rule: "case = one (state recipe, operation): the state (fully persisted and re-opened / persisted with a dirty in-memory path / in memory only / one delete away from a shrink / just grown / a high-layer key whose left child alone is a private in-memory node / low-layer keys at the grow threshold with an absent higher-layer key to insert / an absent higher-layer key whose split seam runs through private nodes with store-only children; bf 2-16; int, string, user and struct keys - struct keys marshal for both layer and order) is rebuilt from its seed for every run; a counting pass records how many Load, KeyCompare and Marshal calls the operation (Insert new/update, Delete, Get, Iter, SeekIter, DiffIter, DiffLinks, Clone, Cursor+Ceil+Forward+Backward) makes; then for EVERY index i of each kind (quick: first 24 per kind; thorough: first 80, plus sampled pairs) the i-th call is made to fail; if the operation returns an error, the full dump, Size and Height read with faults cleared must equal the pre-state and the same call must then succeed with the model's normal result; operations that absorb the fault (return nil) or panic under the fault are counted, not judged; non-trivial = a fault that was hit and surfaced as an error; distinct by (state, op, kind, index)",
+		Rule: "case = one (state recipe, operation): the state (fully persisted and re-opened / persisted with a dirty in-memory path / in memory only / one delete away from a shrink / just grown / a high-layer key whose left child alone is a private in-memory node / low-layer keys at the grow threshold with an absent higher-layer key to insert / an absent higher-layer key whose split seam runs through private nodes with store-only children; bf 2-16; int, string, user and struct keys - struct keys marshal for both layer and order) is rebuilt from its seed for every run; a counting pass records how many Load, KeyCompare and Marshal calls the operation (Insert new/update, Delete, Get, Iter, SeekIter, DiffIter, DiffLinks, Clone, Cursor+Ceil+Forward+Backward) makes; then for EVERY index i of each kind (quick: first 24 per kind plus 5 sampled pairs; thorough: first 80 plus 12 sampled pairs) the i-th call is made to fail; if the operation returns an error, the full dump, Size and Height read with faults cleared must equal the pre-state and the same call must then succeed with the model's normal result; operations that absorb the fault (return nil) or panic under the fault are counted, not judged; non-trivial = a fault that was hit and surfaced as an error; distinct by (state, op, kind, index)",
 		Assumptions: []string{
 			"the statement only covers calls that RETURN an error; faults swallowed by the operation and panics raised from a failing callback are outside it and are reported as observations (absorbed_faults, panics_under_fault)",
 		},
@@ -457,12 +457,16 @@ func runC12(c *fw.C) {
 			}
 		}
 	}
-	if c.Tier == "thorough" { // sampled pairs of faults (the second matters when the first is absorbed)
+	nPairs := 5
+	if c.Tier == "thorough" {
+		nPairs = 12
+	}
+	{ // sampled pairs of faults (the second matters when the first is absorbed)
 		tot := []struct {
 			k string
 			n int
 		}{{"load", nLoad}, {"compare", nCmp}, {"marshal", nMar}}
-		for j := 0; j < 12; j++ {
+		for j := 0; j < nPairs; j++ {
 			a, b := tot[r.Intn(3)], tot[r.Intn(3)]
 			if a.n == 0 || b.n == 0 {
 				continue
